@@ -466,7 +466,12 @@ def size_ladder(cap=None, floor=0):
     return out
 
 
-def env_invariance(chk, group):
+def env_invariance(chk, *groups):
+    for g in groups:
+        _env_invariance(chk, g)
+
+
+def _env_invariance(chk, group):
     """Runs harness.envprobe <group> once per environment (in parallel) and reports every case whose outcome differs from the default run."""
     import subprocess
     repo = os.environ.get("VERIF_REPO", "/repo")
